@@ -32,6 +32,13 @@ type EnvStep struct {
 	Spec ReqSpec
 	// capacity
 	N int
+
+	// filled in when the step executes: how many bytes the implementation had
+	// written on the connection (since the explored phase began) at that moment,
+	// and the step's position in the global order of environment steps
+	OutAt int
+	Seq   int
+	Ran   bool
 }
 
 func (st *EnvStep) String() string {
@@ -104,6 +111,16 @@ func (t *EnvThread) sched() *vsched.Sched {
 }
 
 //go:norace
+func (t *EnvThread) nextSeq() int {
+	if t.hs != nil {
+		t.hs.EnvSeq++
+		return t.hs.EnvSeq
+	}
+	t.hc.EnvSeq++
+	return t.hc.EnvSeq
+}
+
+//go:norace
 func (t *EnvThread) timer(sub string) *vsched.Timer {
 	for _, tm := range t.sched().Armed() {
 		if sub == "" || strings.Contains(tm.Site, sub) {
@@ -154,6 +171,13 @@ func (t *EnvThread) run() {
 		}
 		if vsched.Dying() {
 			return
+		}
+		st.Ran = true
+		st.Seq = t.nextSeq()
+		if t.hs != nil {
+			st.OutAt = len(t.hs.C.PeekOut())
+		} else if st.Conn < len(t.hc.Conns) {
+			st.OutAt = len(t.hc.Conns[st.Conn].C.PeekOut())
 		}
 		switch st.Kind {
 		case "inject":
@@ -246,7 +270,19 @@ func (h *Server) Collect() {
 	if h.S.Overrun {
 		panic(fmt.Sprintf("harness: step horizon exceeded in an explored phase; live: %v", h.S.Live()))
 	}
+	mark := len(h.Out)
+	pre := len(h.rest)
 	h.collect()
+	h.OutOffset = make([]int, len(h.Out))
+	off := -pre
+	for i := range h.Out {
+		if i < mark {
+			h.OutOffset[i] = -1
+			continue
+		}
+		h.OutOffset[i] = off
+		off += 9 + len(h.Out[i].Payload)
+	}
 }
 
 // Collect parses what the client wrote during an explored phase.
